@@ -6,5 +6,5 @@ Example tables_agree : tables_ok fixed_F1a fixed_F1b schema_tbl loader_tbl = tru
 Proof. vm_compute. reflexivity. Qed.
 
 (** ... and, the syntax of duration values (C20-F6) apart, without any wildcard or excused row *)
-Example tables_strict : strict_ok (erase_classes schema_tbl) (erase_classes loader_tbl) = true.
+Example tables_strict : strict_ok (erase_classes (mech_only schema_tbl)) (erase_classes (mech_only loader_tbl)) = true.
 Proof. vm_compute. reflexivity. Qed.
